@@ -340,7 +340,7 @@ def step (st : St) (line : String) : St × String :=
         (st, verdict (wb why false) mo out)
       | "tmo", [] =>
         -- `Btp::timeout()`: the connection idle timeout (`Session::is_timed_out`, 30 s)
-        let d := e.s.isTimedOut st.link.now connIdleTimeoutSecs
+        let d := e.timeout st.link.now
         let mo := if d then "1" else "0"
         -- specification: the session may only be declared dead while one of our segments is
         -- still awaiting an acknowledgement
